@@ -21,6 +21,10 @@ def run_cases(binary, cases, **kw):
     """core.run_cases, retried when the shared library is being relinked by a concurrent build of the shared
     cache (the loader then fails with 'file too short' / 'invalid ELF header' and the driver makes no progress)"""
     import time
+    # ASan's external symboliser is not used: on a loaded machine it times out or cannot be started and the report then
+    # has no frames at all; frames are printed as (module+offset) and symbolised offline for crashed cases only
+    kw.setdefault('env', {'ASAN_OPTIONS': core.SAN_ENV['ASAN_OPTIONS'].replace('symbolize=1', 'symbolize=0'),
+                          'UBSAN_OPTIONS': core.SAN_ENV['UBSAN_OPTIONS'] + ':symbolize=0'})
     for attempt in range(6):
         try:
             return core.run_cases(binary, cases, **kw)
